@@ -9,5 +9,6 @@ mkdir -p run evidence
 ./run/gotrans "${VERIF_REPO:-/repo}" coq/Gen
 (cd coq && coq_makefile -f _CoqProject -o Makefile >/dev/null && timeout 3000 make -j16)
 cp "${VERIF_REPO:-/repo}/go.sum" harness/go.sum
+[ "$(realpath "${VERIF_REPO:-/repo}")" = /repo ] || (cd harness && go mod edit -replace github.com/sheerbytes/sheerbytes="$(realpath "$VERIF_REPO")")
 (cd harness && go build -tags verif -o ../run/harness .)
 echo "setup ok"
